@@ -10,6 +10,7 @@ import (
 	"sort"
 	"strings"
 	"sync"
+	"sync/atomic"
 	"time"
 
 	"golang.org/x/tools/go/packages"
@@ -39,6 +40,7 @@ type Engine struct {
 	Workers     int
 	SolverKind  string
 	DumpQueries string
+	vioSeen        sync.Map
 	AbstractHashes bool
 	NoIncremental  bool
 	IncMs          int
@@ -69,6 +71,19 @@ func NewEngine(repo string) *Engine {
 		e.ExecPkgs[p] = true
 	}
 	return e
+}
+
+func (e *Engine) seenViolation(h, label string) int {
+	v, _ := e.vioSeen.Load(h + "|" + label)
+	if v == nil {
+		return 0
+	}
+	return int(v.(*atomic.Int64).Load())
+}
+
+func (e *Engine) noteViolation(h, label string) {
+	v, _ := e.vioSeen.LoadOrStore(h+"|"+label, new(atomic.Int64))
+	v.(*atomic.Int64).Add(1)
 }
 
 func (e *Engine) inModule(pkg string) bool {
